@@ -13,7 +13,7 @@ import (
 func init() { Registry["C17"] = c17 }
 
 func c17(c *core.Ctx) map[string]interface{} {
-	c.Explanation = "Static placement/partition/size check of the identifier conversion helpers (C17). Decided: (R11.sib, shared) PlmnIDToNas digit placement incl. filler F iff the MNC has not 3 digits; (R17.snssai) SnssaiToNas emits length 1 then SST when SD is empty, length 4 then SST then the decoded SD otherwise, on every path; (R17.amf) AmfIdToNas: region = octet 0, set = octet1<<2 | octet2[7:6], pointer = octet2[5:0] - the three results partition the 24 bits; (R17.ip) IPAddressToNgap produces BIT STRINGs of exactly 32/128/160 bits holding 4/16/20 octets (IPv4 first) selected by which addresses are given, IPAddressToString has exactly the cases 32/128/160, reads the IPv4 part from octets 0..3 and the IPv6 part from octets 4..19 resp. 0..15, and every index into the address octets is either a constant below the case's octet count or dominated by `index < len(octets)`; (R17.pco) Marshal writes the 0x80 header and then, per container, ID, length, contents from the same three fields UnMarshal fills; UnMarshal's state machine reads ID (2 octets) / length (1) / contents (length) in that order, accounts 2/1/length consumed octets, appends each container exactly once - in the length state when the length is 0 (the input may end there), in the content state otherwise; the Add* helpers set LengthOfContents to the number of octets they append. (R17.snssai-ctor) the emulator's own S-NSSAI IEs are built with length 4 and the SD octets (or length 1 exactly when the SD string is empty); (R9.acc.*) the bit-field accessors of the NAS IE value types (GUTI/TMSI AMF-ID fields among them) as in C09. (R17.pco layouts) PCO.UnMarshal is folded for eight unit layouts (none; empty; with contents; mixed orders; three units; 255 content octets) with symbolic IDs and contents: the decoded list holds exactly the layout's units. NOT decided: the inverse laws as value equalities (net.IP formatting, hex decoding are trusted)."
+	c.Explanation = "Static placement/partition/size check of the identifier conversion helpers (C17). Decided: (R11.sib, shared) PlmnIDToNas digit placement incl. filler F iff the MNC has not 3 digits; (R17.snssai) SnssaiToNas emits length 1 then SST when SD is empty, length 4 then SST then the decoded SD otherwise, on every path; (R17.amf) AmfIdToNas: region = octet 0, set = octet1<<2 | octet2[7:6], pointer = octet2[5:0] - the three results partition the 24 bits; (R17.ip) IPAddressToNgap produces BIT STRINGs of exactly 32/128/160 bits holding 4/16/20 octets (IPv4 first) selected by which addresses are given, IPAddressToString has exactly the cases 32/128/160, reads the IPv4 part from octets 0..3 and the IPv6 part from octets 4..19 resp. 0..15, and every index into the address octets is either a constant below the case's octet count or dominated by `index < len(octets)`; (R17.pco) Marshal writes the 0x80 header and then, per container, ID, length, contents from the same three fields UnMarshal fills; each Add* helper appends one container with the identifier of its option, LengthOfContents equal to the octets it carries, and holding its own copy of them (not a slice of the caller's address); UnMarshal's state machine reads ID (2 octets) / length (1) / contents (length) in that order, accounts 2/1/length consumed octets, appends each container exactly once - in the length state when the length is 0 (the input may end there), in the content state otherwise; the Add* helpers set LengthOfContents to the number of octets they append. (R17.snssai-ctor) the emulator's own S-NSSAI IEs are built with length 4 and the SD octets (or length 1 exactly when the SD string is empty); (R9.acc.*) the bit-field accessors of the NAS IE value types (GUTI/TMSI AMF-ID fields among them) as in C09. (R17.pco layouts) PCO.UnMarshal is folded for eight unit layouts (none; empty; with contents; mixed orders; three units; 255 content octets) with symbolic IDs and contents: the decoded list holds exactly the layout's units. NOT decided: the inverse laws as value equalities (net.IP formatting, hex decoding are trusted)."
 	c.Assumptions = []string{"net.ParseIP/To4/To16, net.IP.String and encoding/hex are correct", "a BIT STRING value of n bits carries ceil(n/8) octets (guaranteed by the decoder, C14/C03)"}
 	r11sibX(c)
 	r17snssaiX(c)
